@@ -318,6 +318,16 @@ def _outer(db, chk, m, cls):
             fr = b.get("gpu_kernel_time")
             okrows = isinstance(fr, Frame) and fr.base == TR and T.cmp("==", fr.col("kernel_type"), T.C(ty)) in (fr.rows[1] if fr.rows[0] == "and" else (fr.rows,))
             okname = isinstance(fr, Frame) and fr.col("name") == ("getitem", ("call", "obj('symtab').get_sym_table"), T.col(TR, "name")) and fr.col("dur") == T.col(TR, "dur")
+            if okrows:
+                # ... ALL device rows of that type: what is left of the selection besides the type test reads the stream alone (no test on dur / name / ...)
+                rest_ = [c_ for c_ in (fr.rows[1] if fr.rows[0] == "and" else (fr.rows,)) if c_ != T.cmp("==", fr.col("kernel_type"), T.C(ty))]
+                try:
+                    tt_ = {sv: bool(T.evaluate(T.and_(*rest_), lambda leaf, sv=sv: sv if leaf == T.col(TR, "stream") else (_ for _ in ()).throw(T.Unknown(leaf)))) for sv in (-1, 0, 7)}
+                    okall = tt_ == {-1: False, 0: True, 7: True}
+                except T.Unknown as u_:
+                    tt_, okall = {"also reads": T.show(u_.args[0])[:80]}, False
+                chk.ob(rule, f"[mem={mem}] per-kernel table of {ty}: EVERY device kernel of the type enters the statistics (no further row condition)", okall, m.loc(node), found=tt_,
+                       accepted="device rows & kernel_type == type", why="dropping e.g. zero-duration instances leaves the sums alone but changes min / mean of a name and removes names whose instances all took 0 us")
             chk.ob(rule, f"[mem={mem}] per-kernel table of {ty}: rows of that type, decoded names, own durations", okrows and okname, m.loc(node),
                    found=[T.show(fr.rows)[:160], T.show(fr.col("name"))[:120]] if isinstance(fr, Frame) else None, accepted=f"kernel_type == {ty}")
             chk.ob(rule, f"[mem={mem}] {ty}: num_kernels / duration_ratio bound to the like-named parameters",
